@@ -94,6 +94,35 @@ def enum_units(tier, seed):
         {"k": "if", "c": ["id", "p_rx"], "t": [{"k": "call", "n": "m_r", "args": [["bin", "-", ["id", "p_rx"], L(1)]]}], "e": None}]}
     for depth in (20, 31, 32, 33, 63, 64, 65, 100, 150):
         cases.append({"rom": "low", "files": {}, "ir": [org, rec, {"k": "call", "n": "m_r", "args": [L(depth)]}, {"k": "label", "n": "lb_tail"}, {"k": "data", "d": "dl", "es": [["id", "lb_tail"]]}]})
+    # a code-block argument is expanded where the parameter is spliced, as if written there: what it defines (a label, a :=
+    # or = constant) belongs to the application like anything else in the body -- the rest of the body sees it, before other
+    # definitions of the name further out, and each application has its own
+    for what in ("label", "eager", "late"):
+        for ref in ("after", "before", "both"):
+            if what == "eager" and ref != "after":
+                continue
+            for decoy in (False, True):
+                for wrap in ("root", "block", "loop"):
+                    name = "lb_q" if what == "label" else "kq_v"
+                    use = {"k": "data", "d": "dl", "es": [["id", name]]}
+                    body = ([use] if ref in ("before", "both") else []) + [{"k": "data", "d": "db", "es": [L(0xB0)]}, {"k": "splice", "p": "p_kc"}] + \
+                           ([use, {"k": "ins", "m": "lda", "shape": ["", None, None], "sfx": "w", "e": ["id", name]}] if ref in ("after", "both") else [])
+                    mac = {"k": "macro", "n": "m_k", "ps": ["p_kv", "p_kc"], "b": [{"k": "data", "d": "db", "es": [["id", "p_kv"]]}] + body}
+
+                    def arg(v):
+                        d = {"k": "label", "n": name} if what == "label" else {"k": "const", "n": name, "e": L(0x1230 + v), "eager": what == "eager"}
+                        return {"code": [{"k": "data", "d": "db", "es": [L(v)]}, d, {"k": "data", "d": "dw", "es": [L(0xC0DE)]}]}
+
+                    calls = [{"k": "call", "n": "m_k", "args": [L(1), arg(1)]}, {"k": "data", "d": "db", "es": [L(0x99)]}, {"k": "call", "n": "m_k", "args": [L(2), arg(2)]}]
+                    if wrap == "block":
+                        calls = [{"k": "block", "b": calls}]
+                    elif wrap == "loop":
+                        calls = [{"k": "for", "v": "i_0", "lo": L(0), "hi": L(2), "b": calls[:1]}]
+                    pre = []
+                    if decoy:
+                        pre = [{"k": "label", "n": name}, {"k": "data", "d": "db", "es": [L(0xDD)]}] if what == "label" else [{"k": "const", "n": name, "e": L(0x44), "eager": True}]
+                    cases.append({"rom": "low", "files": {}, "ir": [org] + pre[:1 if what != "label" else 0] + [mac] + (pre if what == "label" else []) + calls +
+                                  [{"k": "label", "n": "lb_tail"}, {"k": "data", "d": "dl", "es": [["id", "lb_tail"]]}]})
     return {"units": [{"cases": [c]} for c in cases], "exhaustive": False}
 
 
